@@ -191,6 +191,23 @@ static std::string do_str(const std::string& api, const std::string& fmt,
     }
     else
     {
+        // the arguments are the caller's variables (lvalues): they are read, never changed
+        std::vector<V> before;
+        for (auto& a : args)
+            before.push_back(a->v);
+        struct Unchanged
+        {
+            std::vector<V>& before;
+            std::vector<std::unique_ptr<Arg>>& args;
+            bool ok() const
+            {
+                for (std::size_t i = 0; i < args.size(); i++)
+                    if (std::holds_alternative<std::string>(before[i]) &&
+                        std::get<std::string>(before[i]) != std::get<std::string>(args[i]->v))
+                        return false;
+                return true;
+            }
+        } unchanged{ before, args };
         switch (args.size())
         {
         case 0:
@@ -207,6 +224,8 @@ static std::string do_str(const std::string& api, const std::string& fmt,
                        args[1]->v, args[2]->v);
             break;
         }
+        if (!unchanged.ok())
+            return "<<args(...) changed a variable of the caller>>";
     }
     return render(api, f);
 }
